@@ -117,6 +117,9 @@ func Exec(c *Case) (nontrivial bool, labels []string, fail *vlib.Failure) {
 				if vlib.MustCanon(p).IsKeyLeaf() {
 					continue
 				}
+				if os.Getenv("VERIF_DEBUG") != "" {
+					fmt.Printf("DEBUG drift %s device=%q merge=%q cancelled=%v orphaned=%v\n", p, device[p], merge[p], c.Cancelled != nil, h.Model.Orphaned[p])
+				}
 				st.Discard("drifted-device")
 				return false, []string{"discard"}, nil
 			}
